@@ -1,1 +1,75 @@
-(* stub *)
+(* C04 — Coordinate transformations move surfaces and cells by the MCNP rigid
+   motion.  Only restatements; proofs are in C04/Proofs*.v.
+   Vocabulary (C04/Spec.v, from DESIGN Appendix A/B): [to_main o b p'] = the
+   main-system point with auxiliary coordinates p' (o = displacement, rows of b
+   = auxiliary axes in main coordinates); [msense s] = MCNP sense function of a
+   frame-form surface in its own coordinates; [t4val c] = sense function of a
+   written SURF line (with TRANSFORM); [tr_convert RS tr s] = the model of
+   transformation() followed by conversion_surface_params(). *)
+From Coq Require Import List ZArith Bool Reals.
+From T4V Require Import Base.Scalar C04.Vec C04.Model C04.Spec C04.ProofsFrame C04.ProofsConvert
+  C04.ProofsQuad C04.ProofsSurf.
+Import ListNotations.
+Open Scope R_scope.
+
+(* transformation_quad is the congruence of the quadric with p -> B (p - O):
+   no hypothesis on B at all *)
+Theorem C04_quad_congruence : forall (q : list R) (o : R3) (b : M3 R) (p : R3),
+  List.length q = 10%nat ->
+  gq_fn (transformation_quad RS q (vlist o ++ mlist b)) p = gq_fn q (to_aux o b p).
+Proof. exact quad_congruence. Qed.
+Print Assumptions C04_quad_congruence.
+
+(* GQ under a transformation with orthonormal axes: a QUAD whose function at the
+   moved point is the GQ function at the original point *)
+Theorem C04_frame_transform_gq : forall (q : list R) (o : R3) (b : M3 R) pt u nap (p' : R3),
+  List.length q = 10%nat -> rows_orthonormal b ->
+  let s := mkMS KGQ pt u q nap in
+  exists c, tr_convert RS (vlist o ++ mlist b) s = Ok [(c, 1%Z)] /\
+            t4val c (to_main o b p') = msense s p'.
+Proof. exact frame_transform_gq. Qed.
+Print Assumptions C04_frame_transform_gq.
+
+Theorem C04_frame_transform_plane : forall (o : R3) (b : M3 R) pt n cp nap (p' : R3),
+  rows_orthonormal b ->
+  let s := mkMS KP pt n cp nap in
+  exists c, tr_convert RS (vlist o ++ mlist b) s = Ok [(c, 1%Z)] /\
+            same_sense (t4val c (to_main o b p')) (msense s p').
+Proof. exact frame_transform_plane. Qed.
+Print Assumptions C04_frame_transform_plane.
+
+Theorem C04_frame_transform_sphere : forall (o : R3) (b : M3 R) pt u r rest nap (p' : R3),
+  rows_orthonormal b ->
+  let s := mkMS KS pt u (r :: rest) nap in
+  exists c, tr_convert RS (vlist o ++ mlist b) s = Ok [(c, 1%Z)] /\
+            t4val c (to_main o b p') = msense s p'.
+Proof. exact frame_transform_sphere. Qed.
+Print Assumptions C04_frame_transform_sphere.
+
+Theorem C04_frame_transform_cylinder : forall (o : R3) (b : M3 R) pt u r rest nap (p' : R3),
+  rows_orthonormal b -> norm2 u = 1 ->
+  let s := mkMS KC pt u (r :: rest) nap in
+  exists c, tr_convert RS (vlist o ++ mlist b) s = Ok [(c, 1%Z)] /\
+            t4val c (to_main o b p') = msense s p'.
+Proof. exact frame_transform_cylinder. Qed.
+Print Assumptions C04_frame_transform_cylinder.
+
+Theorem C04_frame_transform_cone : forall (o : R3) (b : M3 R) apex u c0 a rest nap (p' : R3),
+  rows_orthonormal b -> norm2 u = 1 -> (nap = None \/ nap = Some 0%Z) ->
+  let s := mkMS KK apex u (c0 :: a :: rest) nap in
+  exists c, tr_convert RS (vlist o ++ mlist b) s = Ok [(c, 1%Z)] /\
+            t4val c (to_main o b p') = msense s p'.
+Proof. exact frame_transform_cone. Qed.
+Print Assumptions C04_frame_transform_cone.
+
+(* one-sheet cones: both sheets, every orthonormal B (the moved axis may be
+   anti-parallel to a coordinate axis: DESIGN §8 #3, repaired in ce05bad) *)
+Theorem C04_frame_transform_cone_sheet : forall (o : R3) (b : M3 R) apex u c0 a rest n (p' : R3),
+  rows_orthonormal b -> norm2 u = 1 -> (n = 1 \/ n = -1)%Z ->
+  let s := mkMS KK apex u (c0 :: a :: rest) (Some n) in
+  exists cone plane side,
+    tr_convert RS (vlist o ++ mlist b) s = Ok [(cone, 1%Z); (plane, side)] /\
+    (mneg s p' <-> coll_neg [(cone, 1%Z); (plane, side)] (to_main o b p')) /\
+    (mpos s p' <-> coll_pos [(cone, 1%Z); (plane, side)] (to_main o b p')).
+Proof. exact frame_transform_cone_sheet. Qed.
+Print Assumptions C04_frame_transform_cone_sheet.
